@@ -184,6 +184,10 @@ func (p c18) scenario(r *core.Result, s c18scn, seed uint64) {
 	var echoes, echoErrs int64
 	mux.MessageHandlerFunc(nil, func(ctx context.Context, m *lime.Message, sd lime.Sender) error {
 		onHandler(ctx)
+		if s.Echo && strings.HasPrefix(m.ID, "hold") {
+			// this handler is still busy when the server is closed, and answers then - with the context it was given
+			<-ctx.Done()
+		}
 		if s.Echo {
 			// an ordinary echo handler: it answers under the context it was given (which the server cancels at Close)
 			reply := &lime.Message{}
@@ -377,6 +381,9 @@ func (p c18) scenario(r *core.Result, s c18scn, seed uint64) {
 					}
 					m := &lime.Message{}
 					m.ID = fmt.Sprintf("m%d", k)
+					if s.Echo && k == 40 {
+						m.ID = "hold" // (every client's 41st message keeps its session's handler busy until Close)
+					}
 					m.SetContent(lime.TextDocument("x"))
 					sctx, sc := context.WithTimeout(context.Background(), 2*time.Second)
 					err := c.cc.SendMessage(sctx, m)
